@@ -185,4 +185,4 @@ mod tests {
 
 #[cfg(kani)]
 #[path = "/verif/units/kani/page_diff.rs"]
-mod verif_kani;
+pub(crate) mod verif_kani;
